@@ -84,3 +84,20 @@ reg("C20", "proof", ["contracts.screening:IsScreened", "contracts.screening:Scre
      "gbasis.integrals.overlap.overlap_integral", "gbasis.base_two_symm.BaseTwoIndexSymmetric.construct_array_* (keyword forwarding)"],
     extra_assumptions=["precondition 0 < tol_screen < 1 (the property's range 1e-16 .. 0.5)",
                        "ln / exp enter z3 through sound axiom instances: strict monotonicity, sign of ln around 1, exp(ln x) = x"])
+
+reg("C03", "proof", ["contracts.coulomb:OneElecKernel", "contracts.coulomb:PointChargeBlock", "contracts.coulomb:PointChargeInline",
+    "contracts.dispatch:Dispatch", "contracts.assembly:TwoSymm"],
+    ["gbasis.integrals._one_elec_int._compute_one_elec_integrals", "gbasis.integrals.point_charge.PointChargeIntegral.construct_array_contraction",
+     "gbasis.integrals.point_charge.point_charge_integral", "gbasis.integrals.nuclear_electron_attraction.nuclear_electron_attraction_integral"],
+    extra_assumptions=["PointChargeIntegral.boys_func replaced by a symbolic Boys function (atoms F_m(T)): the kernels are proved for ANY function "
+                       "satisfying boys(m, T) = F_m(T); the real hyp1f1-based implementation is covered by the bounded stand-in only",
+                       "trusted calculus: (s|1/r_C|s) = (2 pi/p) E F_0(p|PC|^2), dF_m/dT = -F_{m+1}, differentiation under the integral sign"])
+
+reg("C04", "proof", ["contracts.coulomb:TwoElecKernel", "contracts.coulomb:ERIBlock", "contracts.coulomb:ERISymmetry",
+    "contracts.dispatch:Dispatch", "contracts.assembly:FourSymm"],
+    ["gbasis.integrals._two_elec_int._compute_two_elec_integrals", "gbasis.integrals._two_elec_int._compute_two_elec_integrals_angmom_zero",
+     "gbasis.integrals.electron_repulsion.ElectronRepulsionIntegral.construct_array_contraction",
+     "gbasis.integrals.electron_repulsion.electron_repulsion_integral", "gbasis.base_four_symm.BaseFourIndexSymmetric.construct_array_*"],
+    extra_assumptions=["boys_func replaced by a symbolic Boys function: the kernels are proved for ANY function with boys(m, T) = F_m(T)",
+                       "trusted calculus: (ss|ss) closed form, dF_m/dT = -F_{m+1}, differentiation under the integral sign",
+                       "rounding (the 1e-6 Schwarz clause, ill-conditioned quartets) is NOT covered by the deductive part"])
